@@ -133,7 +133,7 @@ def run_unique(ctx):
     ctx.ev.set("exhaustive", True)
     if th:
         u4 = ctx.tlc("Unique", "Unique_mc_max4.cfg", timeout=3000, coverage=True, name="Unique MC (MAXSIZE 4, two sketches)",
-                     constants={"MAXSIZE": 4, "NSk": 2, "MaxIns": 7, "MaxMrg": 2, "hashes": 11})
+                     constants={"MAXSIZE": 4, "NSk": 2, "MaxIns": 6, "MaxMrg": 2, "hashes": 8})
         ctx.require_model_ok(u4, "Unique invariants (MAXSIZE 4)")
         if u4.zero_cov:
             raise Infra("actions never taken in Unique: %s" % u4.zero_cov)
